@@ -93,7 +93,24 @@ func wellFormedPath(r *rng, integer bool) []type1.GlyphOp {
 
 func randStems(r *rng) []funit.Int16 {
 	var s []funit.Int16
-	for k := r.intn(3); k > 0; k-- {
+	if r.chance(1, 8) {
+		// three stems in the arrangement of hstem3/vstem3 (equal outer widths, the middle one centred), in any order
+		a, w, wm, gap := r.rangeInt(-200, 400), r.rangeInt(10, 60), r.rangeInt(10, 80), r.rangeInt(100, 300)
+		tri := [][2]int{{a, a + w}, {a + gap + (w-wm)/2, a + gap + (w-wm)/2 + wm}, {a + 2*gap, a + 2*gap + w}}
+		if (w-wm)%2 != 0 {
+			tri[1][1]++ // keep the centres equidistant when the widths differ in parity: widen by one
+			tri[1][0]--
+		}
+		for _, i := range r.perm(3) {
+			s = append(s, funit.Int16(tri[i][0]), funit.Int16(tri[i][1]))
+		}
+		return s
+	}
+	nst := r.intn(3)
+	if r.chance(1, 6) {
+		nst = r.rangeInt(3, 6)
+	}
+	for k := nst; k > 0; k-- {
 		a := r.rangeInt(-1000, 1000)
 		if r.chance(1, 10) {
 			// stems spanning more than 32767 units: the width operand does not fit 16 bits
